@@ -30,6 +30,7 @@ func main() {
 	out := flag.String("json", "", "write JSON report here")
 	work := flag.String("work", "", "work directory for SMT files")
 	timeout := flag.Int("timeout", 10000, "per-obligation solver timeout (ms)")
+	retryTimeout := flag.Int("retry-timeout", 0, "ms per obligation for the single-obligation second opinions (default: same as -timeout)")
 	jobs := flag.Int("j", 14, "parallel functions")
 	conform := flag.Bool("conform", false, "run the interface-conformance jobs of ALL contracted interfaces (default: only those named in `conformance` directives)")
 	verbose := flag.Bool("v", false, "print every obligation")
@@ -46,6 +47,7 @@ func main() {
 		os.Exit(2)
 	}
 	eng.timeoutMs = *timeout
+	eng.retryMs = *retryTimeout
 	eng.debug = *debug
 	eng.thorough = *thorough
 	eng.seed = *seed
